@@ -472,7 +472,23 @@ class Interp:
                     return Bool(True)
                 if tn == 'ndarray':
                     return Bool('ndarray' in names)
+                # abstract number classes: a float may be a numpy.float64 (a float AND a numpy.number), an int is a
+                # numbers.Number / Integral but never a numpy.number
+                broad = {'number', 'generic', 'floating', 'Number', 'Real', 'Complex'}
+                if tn == 'float' and (set(names) & broad) and 'float' not in names:
+                    return Bool(None)
+                if tn == 'int' and (set(names) & {'Number', 'Real', 'Complex', 'Integral', 'Rational'}):
+                    return Bool(True)
                 return Bool(tn in names)
+            if name == 'int' and len(args) == 1:
+                v = args[0]
+                if isinstance(v, Other) and v.d == 'float':
+                    # int() of a float truncates: whatever well comes out was not asked for - as a selector component it
+                    # behaves like a user int from here on
+                    return U1('truncated float')
+                if isinstance(v, (Idx, Const)):
+                    return v
+                return Other('int')
             if name == 'len':
                 v = args[0]
                 if isinstance(v, Labels):
